@@ -316,3 +316,109 @@ def replay(path: str) -> Dict[str, Any]:
     v = [x for x in res["violations"] if x["signature"] == rp["signature"]]
     engine.say(f"replay: {'reproduced' if v else 'not reproduced'}")
     return {"level": "model_checking", "coverage": {}, "violations": v[:1]}
+
+
+# ------------------------------------------------------------------------------------------------
+# growth: the sender half (spec/ClientSend.tla) - what every send call puts on the wire
+# ------------------------------------------------------------------------------------------------
+def _send_case(args):
+    tid, beh, timecode = args
+    import struct
+    from ..readdrv import ScriptSock, _Select, _Time
+    import pyrtma.client as C
+    import pyrtma.core_defs as cd
+    import pyrtma.exceptions as E
+    clock = [0.0]
+    saved = (C.select, C.time)
+    C.select, C.time = _Select(clock), _Time(clock)
+    bad = []
+    try:
+        c = C.Client(module_id=11, host_id=3, timecode=timecode)
+        s = ScriptSock()
+        c._sock, c._connected = s, True
+        hs = 56 if timecode else 48
+        for e in beh:
+            if e["a"] == "Disconnect":
+                c._connected = False
+                continue
+            before = len(s.sent)
+            kind, dst, dhost, exp = e["kind"], e["dst"], e["dhost"], e["exp"]
+            msg = cd.MDF_MODULE_READY()
+            got = {"res": "sent", "exc": ""}
+            try:
+                if kind == "message":
+                    c.send_message(msg, dest_mod_id=dst, dest_host_id=dhost)
+                elif kind == "signal":
+                    c.send_signal(cd.MT_EXIT, dest_mod_id=dst, dest_host_id=dhost)
+                else:
+                    h = c.header_cls()
+                    h.msg_type, h.dest_mod_id, h.dest_host_id = cd.MT_MODULE_READY, max(-32768, min(32767, dst)), max(-32768, min(32767, dhost))
+                    h.msg_count = c.msg_count
+                    c.forward_message(h, msg)
+            except Exception as ex:  # noqa
+                got = {"res": "raise", "exc": type(ex).__name__}
+            new = bytes(s.sent[before:])
+            if (got["res"], got["exc"]) != (exp["res"], exp["exc"]):
+                bad.append((f"ClientSend/outcome:{kind}", f"{got} expected {exp}"))
+                continue
+            if exp["res"] == "raise":
+                if new:
+                    bad.append((f"ClientSend/refusal-wrote-bytes:{kind}", new[:16].hex()))
+                continue
+            want_len = hs + (4 if kind != "signal" else 0)
+            if len(new) != want_len:
+                bad.append((f"ClientSend/frame-length:{kind}", f"{len(new)} != {want_len}"))
+                continue
+            f = struct.unpack_from("<iiddhhhhiiiI", new, 0)
+            mt, cnt, shost, smod, dh, dm, nb, ver = f[0], f[1], f[4], f[5], f[6], f[7], f[8], f[11]
+            if cnt != exp["count"]:
+                bad.append((f"ClientSend/msg_count:{kind}", f"{cnt} != {exp['count']}"))
+            if kind != "forward" and (smod != 11 or shost != 3 or dm != dst or dh != dhost):
+                bad.append((f"ClientSend/addressing:{kind}", f"src {smod}/{shost} dst {dm}/{dh}"))
+            if kind == "message" and ver != cd.MDF_MODULE_READY.type_hash:
+                bad.append(("C13/NotStamped/send_message", f"version {ver:#x}"))
+        c._connected = False
+    finally:
+        C.select, C.time = saved
+    return tid, bad
+
+
+def sender_half(tier: str, seed: int):
+    d = tempfile.mkdtemp(prefix="c13s_")
+    try:
+        mc = engine.model_check("ClientSend", "ClientSend.cfg", timeout=600)
+        if mc["violation"]:
+            raise tlc.TlcError("ClientSend violated: " + mc["violation"])
+        behs = engine.gen_behaviours("ClientSend", "ClientSend_Gen.cfg", num=150 if tier == "quick" else 1500, depth=20, seed=seed + 9)
+    finally:
+        shutil.rmtree(d, ignore_errors=True)
+    viol, drift = [], []
+    with engine.Quiet():
+        for i, b in enumerate(behs):
+            _, bad = _send_case((i, b, bool(i % 2)))
+            for sig, detail in bad:
+                (viol if sig.startswith("C13/") else drift).append((sig, detail, b))
+    return mc, len(behs), viol, drift
+
+
+_run13 = run
+
+
+def run(tier, seed):  # noqa: F811
+    res = _run13(tier, seed)
+    mc, n, viol, drift = sender_half(tier, seed)
+    seen = set()
+    for sig, detail, b in viol:
+        if sig not in seen:
+            seen.add(sig)
+            res["violations"].append({"signature": sig, "replay": {"kind": "sender", "behaviour": b, "detail": detail}})
+    res["coverage"]["states"] += mc.get("distinct", 0)
+    res["coverage"]["transitions"] += mc.get("states", 0)
+    res["coverage"]["sender_behaviours_replayed"] = n
+    res["coverage"]["traces_validated_against_impl"] += n
+    if drift:
+        kinds = sorted({s for s, _, _ in drift})
+        res["notes"].append(f"sender half (ClientSend.tla, outside the listed properties): {len(drift)} call(s) differ from the specification: {kinds[:6]}")
+    res["coverage"]["explanation"] += ("; ClientSend.tla (refusal before writing, gap-free msg_count, addressing, version stamp) model checked and its "
+                                       "behaviours replayed on a real Client writing to a scripted socket")
+    return res
